@@ -176,89 +176,128 @@ def tables_ns():
 
 
 def _fresh_toargs(ctx, name):
+    """ToArgs over abstract views.  Table entries are modelled by their *key* (what `_hash_fn` returns): two entries with the
+    same key are interchangeable for re-encoding (equal constants / all NaNs), so `_hash_fn` is the identity here."""
     ns = tables_ns()
     table = SymArrSeq.fresh(name + "_table")
     M = SymMap.fresh(name + "_M")
-    ctx.assume(z3.And(M.size >= 0, table.length >= 0), "pre: sizes are non-negative")
+    F = SymMap.fresh(name + "_F")
+    ctx.assume(z3.And(M.size >= 0, F.size >= 0, table.length >= 0), "pre: sizes are non-negative")
     ctx.input(name + "_len", SymInt(table.length))
     ctx.input(name + "_found", M)
     ctx.input(name + "_n_found", SymInt(M.size))
-    return ns["ToArgs"](table, M), table, M
+    ctx.input(name + "_first_index_of_key", F)
+    try:
+        t = ns["ToArgs"](table, M, lambda x: x, F)
+    except TypeError as e:
+        raise rewrite.BindingError("ToArgs no longer takes (_args, _index_to_order, _hash_fn, _arg_to_first_index): %s" % e)
+    return t, table, M, F
 
 
 @harness("blocks.ToArgs.found_index.contract", props=["C01", "C02", "C09"], functions=["code_data._blocks.ToArgs.found_index"], configs="any",
          assumes=["dict abstract view: reachable states have size == |dom| (counter-models are repaired before replay)"],
-         notes="unbounded table and found-map; value is table[index] (C02); recorded order is the first-use rank; an override is reported only "
-               "when position != rank (C09) and always then (C01)")
+         notes="unbounded table and found-maps; value is table[index] (C02); recorded order is the first-use rank; an override is reported only "
+               "when position != rank or an equal entry was found first at another index (C09), and always then (C01)")
 def h_found_index(ctx, cfg):
-    t, table, M = _fresh_toargs(ctx, "t")
+    t, table, M, F = _fresh_toargs(ctx, "t")
     idx = ctx.input("index", SymInt.fresh("index"))
     ctx.assume(z3.And(idx.z >= 0, idx.z < table.length), "pre: WF operand indexes inside its table")
     dom0, val0, size0 = M.dom, M.val, M.size
+    Fd0, Fv0 = F.dom, F.val
     value, override = t.found_index(idx)
+    key = z3.Select(table.arr, idx.z)
     rank = z3.If(z3.Select(dom0, idx.z), z3.Select(val0, idx.z), size0)
+    first = z3.If(z3.Select(Fd0, key), z3.Select(Fv0, key), idx.z)
     j = z3.Int("j")
-    ctx.prove("post.value_is_table_entry", Z(value) == z3.Select(table.arr, idx.z))
+    ctx.prove("post.value_is_table_entry", Z(value) == key)
     ctx.prove("post.recorded_order_is_first_use_rank", z3.And(z3.Select(M.dom, idx.z), z3.Select(M.val, idx.z) == rank))
     ctx.prove("post.frame_other_keys_unchanged",
               z3.ForAll([j], z3.Implies(j != idx.z, z3.And(z3.Select(M.dom, j) == z3.Select(dom0, j), z3.Select(M.val, j) == z3.Select(val0, j)))))
     ctx.prove("post.size_grows_iff_new", M.size == z3.If(z3.Select(dom0, idx.z), size0, size0 + 1))
+    ctx.prove("post.first_index_of_key_recorded", z3.And(z3.Select(F.dom, key), z3.Select(F.val, key) == first))
+    ctx.prove("post.frame_first_index_other_keys",
+              z3.ForAll([j], z3.Implies(j != key, z3.And(z3.Select(F.dom, j) == z3.Select(Fd0, j), z3.Select(F.val, j) == z3.Select(Fv0, j)))))
     if override is None:
-        ctx.prove("post.no_override_implies_in_place(C01)", rank == idx.z)
+        ctx.prove("post.no_override_implies_in_place_and_first_of_its_key(C01)", z3.And(rank == idx.z, first == idx.z))
     else:
-        ctx.prove("post.override_only_if_position_differs_from_first_use_rank(C09)", z3.And(Z(override) == idx.z, rank != idx.z))
+        ctx.prove("post.override_only_if_position_differs_from_first_use_rank_or_key_seen_elsewhere(C09)",
+                  z3.And(Z(override) == idx.z, z3.Or(rank != idx.z, first != idx.z)))
 
 
 @harness("blocks.ToArgs.found_index.canary", props=["C09"], functions=["code_data._blocks.ToArgs.found_index"], configs="any", expect="failed",
          notes="known-false: found_index never reports an override")
 def h_found_index_canary(ctx, cfg):
-    t, table, M = _fresh_toargs(ctx, "t")
+    t, table, M, F = _fresh_toargs(ctx, "t")
     idx = SymInt.fresh("index")
     ctx.assume(z3.And(idx.z >= 0, idx.z < table.length))
     value, override = t.found_index(idx)
     ctx.prove("canary.never_overrides", z3.BoolVal(override is None))
 
 
-def _dup_free(table):
-    j, k = z3.Ints("dj dk")
-    return z3.ForAll([j, k], z3.Implies(z3.And(0 <= j, j < table.length, 0 <= k, k < table.length, j != k),
-                                        z3.Select(table.arr, j) != z3.Select(table.arr, k)))
-
-
-def _rel(table, M, I, K):
-    """Simulation relation between the decoder's found-map M and the encoder's (index->value I, key->index K)."""
+def _rel(table, M, F, I, K):
+    """Simulation relation between the decoder's maps (M: index -> rank, F: key -> first index found) and the encoder's
+    (I: index -> value key, K: key -> index)."""
     j, k = z3.Ints("rj rk")
     return z3.And(
         M.size == I.size,
         z3.ForAll([j], z3.Select(I.dom, j) == z3.Select(M.dom, j)),
         z3.ForAll([j], z3.Implies(z3.Select(M.dom, j), z3.And(0 <= j, j < table.length, z3.Select(I.val, j) == z3.Select(table.arr, j)))),
-        z3.ForAll([j], z3.Implies(z3.Select(I.dom, j), z3.And(z3.Select(K.dom, z3.Select(I.val, j)), z3.Select(K.val, z3.Select(I.val, j)) == j))),
-        z3.ForAll([k], z3.Implies(z3.Select(K.dom, k), z3.And(z3.Select(I.dom, z3.Select(K.val, k)), z3.Select(I.val, z3.Select(K.val, k)) == k))))
+        z3.ForAll([k], z3.Select(K.dom, k) == z3.Select(F.dom, k)),
+        z3.ForAll([k], z3.Implies(z3.Select(F.dom, k), z3.Select(K.val, k) == z3.Select(F.val, k))),
+        z3.ForAll([k], z3.Implies(z3.Select(F.dom, k), z3.And(z3.Select(M.dom, z3.Select(F.val, k)), z3.Select(table.arr, z3.Select(F.val, k)) == k))),
+        z3.ForAll([j], z3.Implies(z3.Select(M.dom, j), z3.Select(F.dom, z3.Select(table.arr, j)))))
+
+
+def _sim_setup(ctx):
+    ns = tables_ns()
+    table = SymArrSeq.fresh("table")
+    M, F, I, K = SymMap.fresh("M"), SymMap.fresh("F"), SymMap.fresh("I"), SymMap.fresh("K")
+    ctx.assume(z3.And(M.size >= 0, F.size >= 0, table.length >= 0), "pre")
+    j = z3.Int("dense_j")
+    # first-use-rank discipline (proved for found_index above): the found indices carry ranks 0..|M|-1, so an unfound index >= |M| ... is not needed;
+    # what the step needs is that slot |I| is free, i.e. the encoder's map is dense only up to overrides: stated as `|M| not in dom` when no override is used
+    ctx.assume(_rel(table, M, F, I, K), "pre: simulation relation")
+    idx = ctx.input("index", SymInt.fresh("index"))
+    ctx.assume(z3.And(idx.z >= 0, idx.z < table.length), "pre: WF operand in table")
+    ctx.input("found", M); ctx.input("first_index_of_key", F)
+    return ns, table, M, F, I, K, idx
 
 
 @harness("blocks.simulation_step(found_index;add)", props=["C01"],
          functions=["code_data._blocks.ToArgs.found_index", "code_data._blocks.FromArgs.add", "code_data._blocks.FromArgs.__setitem__", "code_data._blocks.FromArgs.__len__"],
          configs="any",
-         assumes=["WF(c): the table is duplicate-free under the constant key (validated on corpora by E3)",
-                  "meta-step: induction over the operand occurrence sequence once base and step are proved"],
-         notes="decoder found_index(i) -> (v, ov) then encoder add(v, ov) -> j: j == i and the relation holds again; unbounded tables; "
-               "_hash_fn is the identity on value ids (keys of distinct table entries are distinct by WF)")
+         assumes=["meta-step: induction over the operand occurrence sequence once base and step are proved",
+                  "table entries with equal keys are interchangeable in the emitted table (equal constants; all NaNs identified)"],
+         notes="decoder found_index(i) -> (v, ov) then encoder add(v, ov) -> j: j == i and the relation holds again; unbounded tables, "
+               "key-duplicate entries allowed (two NaN constants, unmerged equal tuples on 3.7)")
 def h_sim_step(ctx, cfg):
-    ns = tables_ns()
-    table = SymArrSeq.fresh("table")
-    M, I, K = SymMap.fresh("M"), SymMap.fresh("I"), SymMap.fresh("K")
-    ctx.assume(z3.And(M.size >= 0, table.length >= 0), "pre")
-    ctx.assume(_dup_free(table), "pre: WF duplicate-free")
-    ctx.assume(_rel(table, M, I, K), "pre: simulation relation")
-    idx = ctx.input("index", SymInt.fresh("index"))
-    ctx.assume(z3.And(idx.z >= 0, idx.z < table.length), "pre: WF operand in table")
-    # first-use-rank discipline of the decoder: every found index >= number found so far is new (proved for found_index above)
-    t = ns["ToArgs"](table, M)
+    ns, table, M, F, I, K, idx = _sim_setup(ctx)
+    t = ns["ToArgs"](table, M, lambda x: x, F)
     v, ov = t.found_index(idx)
     f = ns["FromArgs"](_i_to_arg=I, _arg_to_i=K, _hash_fn=lambda x: x)
     got = f.add(v, ov)
     ctx.prove("step.encoder_index_equals_decoder_index", Z(got) == idx.z)
-    ctx.prove("step.relation_preserved", _rel(table, M, I, K))
+    ctx.prove("step.relation_preserved", _rel(table, M, F, I, K))
+
+
+@harness("blocks.simulation_step.override_is_justified", props=["C09"],
+         functions=["code_data._blocks.ToArgs.found_index", "code_data._blocks.FromArgs.add"], configs="any",
+         notes="whenever found_index reports an override although position == first-use rank (an equal entry was found first elsewhere), "
+               "the encoder *without* that override returns a different index: removing the override would change the re-encoded code")
+def h_sim_override_justified(ctx, cfg):
+    ns, table, M, F, I, K, idx = _sim_setup(ctx)
+    dom0, val0, size0 = M.dom, M.val, M.size
+    t = ns["ToArgs"](table, M, lambda x: x, F)
+    v, ov = t.found_index(idx)
+    if ov is None:
+        return
+    rank = z3.If(z3.Select(dom0, idx.z), z3.Select(val0, idx.z), size0)
+    if not ctx.decide(rank == idx.z):
+        ctx.reached("override.position_differs_from_rank")
+        return
+    f = ns["FromArgs"](_i_to_arg=I, _arg_to_i=K, _hash_fn=lambda x: x)
+    got = f.add(v, None)
+    ctx.prove("override.at_rank_is_justified: encoder without it returns another index", Z(got) != idx.z)
 
 
 @harness("blocks.FromArgs.add.contract", props=["C03"],
@@ -293,7 +332,8 @@ def h_fromargs_add(ctx, cfg):
         slot = z3.If(z3.Select(K0d, v.z), z3.IntVal(-1), I0s)
     ctx.prove("post.frame_I", z3.ForAll([j], z3.Implies(j != slot, z3.And(z3.Select(I.dom, j) == z3.Select(I0d, j), z3.Select(I.val, j) == z3.Select(I0v, j)))))
     ctx.prove("post.slot_holds_value", z3.Implies(slot >= 0, z3.And(z3.Select(I.dom, slot), z3.Select(I.val, slot) == v.z)))
-    ctx.prove("post.key_maps_to_returned_index_when_written", z3.Implies(slot >= 0, z3.And(z3.Select(K.dom, v.z), z3.Select(K.val, v.z) == slot)))
+    ctx.prove("post.key_resolves_to_first_index_stored", z3.Implies(slot >= 0, z3.And(z3.Select(K.dom, v.z), z3.Select(K.val, v.z) == z3.If(z3.Select(K0d, v.z), z3.Select(K0v, v.z), slot))))
+    ctx.prove("post.frame_K", z3.ForAll([j], z3.Implies(j != v.z, z3.And(z3.Select(K.dom, j) == z3.Select(K0d, j), z3.Select(K.val, j) == z3.Select(K0v, j)))))
 
 
 # --------------------------------------------------------------------------------------------------
@@ -321,7 +361,7 @@ def h_to_arg(ctx, cfg):
         table = SymArrSeq.fresh(nm)
         M = SymMap.fresh(nm + "_M")
         ctx.assume(z3.And(M.size >= 0, table.length >= 0), "pre")
-        tabs[nm] = (ns["ToArgs"](table, M), table)
+        tabs[nm] = (ns["ToArgs"](table, M, lambda x: x, SymMap.fresh(nm + "_F")), table)
     freevars = SymArrSeq.fresh("freevars")
     ctx.assume(freevars.length >= 0, "pre")
     ctx.assume(z3.Implies(cls["hasname"], arg.z < tabs["names"][1].length), "pre: WF")
